@@ -26,6 +26,8 @@ static int all_cfgs(cfg_t *cfgs, int max, int rs_thorough, int with_null)
         nc += cfgs_rs(cfgs + nc, max - nc, EC_BACKEND_ISA_L_RS_CAUCHY, 0, MO.seed + 2);
     }
     nc += cfgs_shss(cfgs + nc, max - nc);
+    nc += cfgs_jer(cfgs + nc, max - nc);
+    nc += cfgs_phazr(cfgs + nc, max - nc);
     if (with_null) {
         static const int nk[][2] = { {1, 1}, {4, 2}, {10, 4}, {16, 16}, {3, 0} };
         for (int i = 0; i < 5 && nc < max; i++) cfgs[nc++] = (cfg_t){ EC_BACKEND_NULL, nk[i][0], nk[i][1], nk[i][1], 0, CHKSUM_CRC32 };
@@ -89,7 +91,9 @@ static void run_wire(void)
             if (mon_case_all("%s|create", ck)) { desc = lec_create(&c); if (desc <= 0) mon_viol("C07", "create-failed", "rc=%d", desc); mon_end(); }
             if (desc <= 0) continue;
             rng_t r; rng_seed(&r, MO.seed, mon_hash_str(ck, 31));
-            uint64_t A = (uint64_t)c.k * (uint64_t)ref_word_bytes(c.be);
+            cfg_use(&c);
+            cfg_use(&c);
+        uint64_t A = (uint64_t)c.k * (uint64_t)ref_word_bytes(c.be);
             uint64_t lens[40]; int nl = lengths_for(A, MO.thorough, &r, lens, 20);
             if (MO.thorough) for (int q = 0; q < 14; q++) lens[nl++] = rng_below(&r, 3) ? rng_below(&r, 20000) : (uint64_t)c.k * (uint64_t)ref_word_bytes(c.be) * rng_below(&r, 300) + rng_below(&r, 3);
             if (MO.thorough && ci % 25 == 0) lens[nl++] = (1u << 20) - rng_below(&r, 3);
@@ -149,6 +153,7 @@ static void run_wire(void)
 /* ================================================================ C08 */
 static void check_sizes(const cfg_t *c, const char *ck, int desc, uint64_t len, int do_encode)
 {
+    cfg_use(c);
     uint64_t A = (uint64_t)c->k * (uint64_t)ref_word_bytes(c->be);
     /* the public aligned-size query goes by the backend's element size, which for the ISA-L adapters is one byte whatever
      * word size the instance was created with; encode and the fragment-size query pad to the instance's word size */
@@ -160,7 +165,7 @@ static void check_sizes(const cfg_t *c, const char *ck, int desc, uint64_t len, 
     uint64_t want_al = ((len + A - 1) / A) * A;
     mon_count("evaluations", 2);
     if ((uint64_t)al != want_pub) mon_viol("C08", "aligned-size", "get_aligned_data_size(%llu)=%d, smallest multiple of %llu >= len is %llu", (unsigned long long)len, al, (unsigned long long)Apub, (unsigned long long)want_pub);
-    uint64_t bms = (uint64_t)ref_backend_metadata_bytes(c->be);
+    uint64_t bms = ref_backend_metadata_bytes(c->be, want_al / (uint64_t)c->k);
     if ((uint64_t)fs != want_al / (uint64_t)c->k + bms) mon_viol("C08", "fragment-size-model", "get_fragment_size(%llu)=%d, model payload %llu + backend metadata %llu", (unsigned long long)len, fs, (unsigned long long)(want_al / (uint64_t)c->k), (unsigned long long)bms);
     if (do_encode) {
         uint8_t *d = calloc(1, len ? len : 1);
@@ -202,6 +207,7 @@ static void run_sizes(void)
         int desc = -1;
         if (mon_case_all("%s|create", ck)) { desc = lec_create(&c); if (desc <= 0) mon_viol("C08", "create-failed", "rc=%d", desc); mon_end(); }
         if (desc <= 0) continue;
+        cfg_use(&c);
         uint64_t A = (uint64_t)c.k * (uint64_t)ref_word_bytes(c.be);
         if (mon_case("%s|minimum-encode-size", ck)) {
             int mn = liberasurecode_get_minimum_encode_size(desc);
@@ -507,7 +513,7 @@ static int mismatch_ref(const uint8_t *frag, uint64_t P)
 
 static void check_mismatch(ctx_t *x, const uint8_t *frag, uint64_t flen, const char *what, int expect_valid_known, int expect_valid)
 {
-    uint64_t P = flen - 80 - (uint64_t)ref_backend_metadata_bytes(x->c.be);      /* the checksum covers the payload, not the backend's trailer */
+    uint64_t P = ctx_payload_size(x, flen);      /* the checksum covers the payload, not the backend's trailer */
     uint8_t *f = malloc(flen); memcpy(f, frag, flen);
     fragment_metadata_t md;
     int rc = liberasurecode_get_fragment_metadata((char *)f, &md);
@@ -551,14 +557,14 @@ static void run_checksum(void)
             if (!MO.thorough && lm != (ci % 5) && lm != 3 && lm != 0) continue;
             cfg_t c = cfgs[ci]; c.ct = CHKSUM_CRC32;
             set_legacy(lm);
-            uint64_t lens[3] = { (uint64_t)c.k * 4 * 5, (uint64_t)c.k * 4 * 64 - 3, 9 + (uint64_t)c.k * 256 * 4 }; int kinds[3] = { DATA_RANDOM, DATA_HIGH, DATA_RANDOM };
+            uint64_t lens[3] = { (uint64_t)c.k * 4 * 5, (uint64_t)c.k * 4 * 64 - 3, 9 + (uint64_t)c.k * 256 * 4 }; int kinds[3] = { DATA_RANDOM, DATA_CRC0, DATA_RANDOM };
             ctx_t x;
             char suffix[32]; snprintf(suffix, sizeof suffix, ",legacy=%s", legacy_name[lm]);
             if (ctx_open(&x, &c, lens, kinds, 3) == 0) {
                 strncat(x.ck, suffix, sizeof x.ck - strlen(x.ck) - 1);
                 int n = cfg_n(&c);
                 for (int si = 0; si < x.nstr; si++) {
-                    stripe_t *s = &x.st[si]; uint64_t P = s->flen - 80 - (uint64_t)ref_backend_metadata_bytes(c.be);
+                    stripe_t *s = &x.st[si]; uint64_t P = ref_payload_size(c.be, c.k, s->len);
                     /* stored checksum of every encoded fragment == model CRC (variant per switch) */
                     if (mon_case("%s|len=%llu|stored-checksums", x.ck, (unsigned long long)s->len)) {
                         for (int f = 0; f < n; f++) {
@@ -710,7 +716,7 @@ static void run_endian(void)
             if (ctx_open(&x, &c, lens, kinds, 2) == 0) {
                 int n = cfg_n(&c);
                 for (int si = 0; si < x.nstr; si++) {
-                    stripe_t *s = &x.st[si]; uint64_t P = s->flen - 80 - (uint64_t)ref_backend_metadata_bytes(c.be);
+                    stripe_t *s = &x.st[si]; uint64_t P = ref_payload_size(c.be, c.k, s->len);
                     for (int f = 0; f < n; f += (n > 10 && !MO.thorough ? 3 : 1)) {
                         if (!mon_case("%s|legacy=%d|len=%llu|frag=%d|twin", x.ck, lm >= 3, (unsigned long long)s->len, f)) continue;
                         rng_t r; rng_case(&r);
@@ -738,6 +744,7 @@ static void run_endian(void)
                             ref_hdr_twin(nat, tw, variant_legacy);
                             if (v == 4) { /* keep the twin's seal as stale as the native one */ tw[REF_OFF_MCRC] ^= 0x5a; }
                             fragment_metadata_t ma, mb; memset(&ma, 0xA5, sizeof ma); memset(&mb, 0x5A, sizeof mb);   /* stale caller structs: every member must be assigned by the query */
+                            uint64_t dnat = mon_hash(nat, s->flen, 5), dtw = mon_hash(tw, s->flen, 5);
                             int ra = liberasurecode_get_fragment_metadata((char *)nat, &ma);
                             int rb = liberasurecode_get_fragment_metadata((char *)tw, &mb);
                             mon_count("evaluations", 1); mon_count("twin_pairs", 1);
@@ -751,6 +758,8 @@ static void run_endian(void)
                             }
                             int ha = is_invalid_fragment_header((fragment_header_t *)nat), hb = is_invalid_fragment_header((fragment_header_t *)tw);
                             if (v != 4 && ha != hb) mon_viol("C11", "header-verdict-differs", "%s: native %d twin %d", vn, ha, hb);
+                            /* reading a fragment - accepted or refused, either byte order - leaves its bytes alone */
+                            if (mon_hash(nat, s->flen, 5) != dnat || mon_hash(tw, s->flen, 5) != dtw) mon_viol("C11", "query-modified-fragment", "%s: the %s fragment's bytes changed during the metadata query / header check (rc %d/%d)", vn, mon_hash(tw, s->flen, 5) != dtw ? "opposite-endian" : "native", ra, rb);
                             if (v == 1 && ct == CHKSUM_CRC32 && ra == 0 && rb == 0) {
                                 mon_count("twin_pairs_with_payload_corruption", 1);
                                 if (!mb.chksum_mismatch) mon_viol("C11", "twin-mismatch-undetected", "payload corruption is not reported for the opposite-endian twin (native reports %d)", ma.chksum_mismatch);
@@ -774,9 +783,11 @@ static void run_endian(void)
                                 ref_hdr_twin(nat, tw, variant_legacy);
                                 if (stale) { /* the twin carries the byte-swapped stale value: rebuild it from the native stored word */ ref_put32(tw + REF_OFF_MCRC, __builtin_bswap32(ref_get32(nat + REF_OFF_MCRC))); }
                                 fragment_metadata_t ma, mb; memset(&ma, 0xA5, sizeof ma); memset(&mb, 0x5A, sizeof mb);   /* stale caller structs: every member must be assigned by the query */
+                                uint64_t dnat = mon_hash(nat, s->flen, 5), dtw = mon_hash(tw, s->flen, 5);
                                 int ra = liberasurecode_get_fragment_metadata((char *)nat, &ma);
                                 int rb = liberasurecode_get_fragment_metadata((char *)tw, &mb);
                                 int ha = is_invalid_fragment_header((fragment_header_t *)nat), hb = is_invalid_fragment_header((fragment_header_t *)tw);
+                                if (mon_hash(nat, s->flen, 5) != dnat || mon_hash(tw, s->flen, 5) != dtw) mon_viol("C11", "query-modified-fragment", "writer version 0x%06x, %s seal: the %s fragment's bytes changed during the metadata query / header check (rc %d/%d)", V, stale ? "stale" : "good", mon_hash(tw, s->flen, 5) != dtw ? "opposite-endian" : "native", ra, rb);
                                 mon_count("evaluations", 1); mon_count("twin_pairs", 1); mon_count("twin_pairs_version_sweep", 1);
                                 char vn[96]; snprintf(vn, sizeof vn, "writer version 0x%06x, %s seal", V, stale ? "stale" : "good");
                                 int want = ref_hdr_accept(nat);
@@ -848,7 +859,7 @@ static void run_validate(void)
         cfg_t c = pool_q[i];
         if (!isal_ok && (c.be == EC_BACKEND_ISA_L_RS_VAND || c.be == EC_BACKEND_ISA_L_RS_CAUCHY)) continue;
         if (!shss_ok && c.be == EC_BACKEND_SHSS) continue;
-        uint64_t lens[2] = { (uint64_t)c.k * 4 * 9 + 1, 333 + MO.seed % 100 }; int kinds[2] = { DATA_RANDOM, DATA_HIGH };
+        uint64_t lens[2] = { (uint64_t)c.k * 4 * 9 + 1, 333 + MO.seed % 100 }; int kinds[2] = { DATA_CRC0, DATA_HIGH };
         ok[i] = ctx_open(&X[i], &c, lens, kinds, 2) == 0;
     }
     long emitted = 0;
